@@ -11,7 +11,8 @@ RULE = ('one case = a repository produced by the real snapshot command (encrypte
         'users over overlapping file sets) and, for EVERY stored chunk and snapshot object, the damage families: bit flip (offsets 0, nonce '
         'boundary, middle, last byte + seeded offsets), truncate (0, 1, nonce length, len-1, seeded), extend (+1 byte, +block), swap with other '
         'objects of the same kind, replay of one object under the name of another, delete - applied singly - plus seeded pairs; after each, '
-        'the real restore runs (no cache / cold cache / warm cache holding the undamaged snapshot) under a seeded schedule. Oracle: restore '
+        'the real restore runs (no cache / cold cache / warm cache holding the undamaged snapshot) under a seeded schedule, and once more '
+        'with the same cache directory when the first attempt raised. Oracle: restore '
         'raises, or the tree it produced equals the captured contents (of all snapshots, or of all but a snapshot whose object was made '
         'invisible). quick samples at most 160 damage cases per repository, thorough 1500. evaluations = damage cases run; '
         'distinct_nontrivial = distinct (object kind, damage kind, outcome) over all cases with their position bucket')
@@ -20,7 +21,7 @@ COMPONENTS = {
     'stub': ['OS thread scheduling', 'clocks', 'os.urandom', 'object store (SimStore) whose stored bytes are damaged between commands'],
 }
 ASSUMPTIONS = ['the adversary cannot compute keyed MACs (replay is under an existing name)', 'hash collisions do not occur']
-PROBES = ['flip', 'truncate', 'extend', 'swap', 'replay', 'delete', 'pair', 'restore_raised', 'restore_ok_intact', 'restore_ok_without_damaged_snapshot', 'warm_cache']
+PROBES = ['retry_same_cache', 'flip', 'truncate', 'extend', 'swap', 'replay', 'delete', 'pair', 'restore_raised', 'restore_ok_intact', 'restore_ok_without_damaged_snapshot', 'warm_cache']
 TIERS = {'quick': {'budget_s': 45, 'batch': 1}, 'thorough': {'budget_s': 900, 'batch': 2}}
 
 
@@ -162,7 +163,19 @@ def run_case(case):
                 break
             if r.exc is not None:
                 H.probe('restore_raised')
-                continue
+                if mode == 'none':
+                    continue
+                # the user retries with the same cache directory: whatever the failed attempt left there must not
+                # turn the damage into a silent success
+                shutil.rmtree(target, ignore_errors=True)
+                r = W.restore(client, target, H.opts, state=st)
+                evaluations += 1
+                H.probe('retry_same_cache')
+                if r.hang is not None or r.crashed:
+                    H.flag('restore-hang', f'second restore after damage {plan} did not terminate: {r.hang}', kind=d0[1])
+                    break
+                if r.exc is not None:
+                    continue
             got = gen.read_tree(target)
             rel = lambda m: {str(harness.restored_path(target, p).relative_to(target)): v[0] for p, v in m.items()}  # noqa
             gotc = {k: v[0] for k, v in got.items()}
